@@ -70,6 +70,23 @@ class Ctx(object):
         self.notes = {}
         self.t0 = time.time()
 
+    # -- hard CPU budget (works inside C code such as the re engine) --------
+    def guard(self, seconds, key, case):
+        '''
+        Arm a CPU-time budget whose expiry terminates this process (default
+        action of SIGVTALRM), after leaving *case* in a side file; the runner
+        turns the death into a violation with mechanism key *key*.
+        '''
+        path = self.params.get('__current__')
+        if path:
+            with open(path, 'w') as f:
+                json.dump(dict(key=key, case=jsonable(case), budget_cpu_s=seconds), f)
+        signal.signal(signal.SIGVTALRM, signal.SIG_DFL)
+        signal.setitimer(signal.ITIMER_VIRTUAL, seconds)
+
+    def unguard(self):
+        signal.setitimer(signal.ITIMER_VIRTUAL, 0)
+
     # -- bookkeeping -------------------------------------------------------
     def count(self, key, n=1):
         self.counters[key] = self.counters.get(key, 0) + n
